@@ -72,12 +72,20 @@ GBEnv ==
        \/ /\ turn = "fired"
           /\ turn' = "expiring" /\ gh' = Append(gh, Ev("expire", "", 0, round1)) /\ Move /\ UNCHANGED <<vars, round1>>
 
+\* strictmatch=false: which certificate is "the first" is not specified for this source (the snapshot is built
+\* from a map); the generator takes one, the history names all that are allowed (ids of the "end" event)
+GFallback ==
+    /\ ~Strict /\ hs[c1].pc = "started" /\ Match(hs[c1].name) = {} /\ Live # {}
+    /\ Present(c1, MinOf(Live))
+    /\ UNCHANGED <<certs, store, cache, pending, flight, tfl, pfault, asked, dupIssue, benv>> /\ BOnly
+
 GBInternal ==
-    \/ (HsHit(c1) \/ HsFallback(c1) \/ HsMiss(c1) \/ HsJoin(c1) \/ HsCached(c1) \/ HsLead(c1)) /\ Same
+    \/ (HsHit(c1) \/ GFallback \/ HsMiss(c1) \/ HsJoin(c1) \/ HsCached(c1) \/ HsLead(c1)) /\ Same
     \/ \E n \in PNames : IssueReq(n) /\ gh' = Append(gh, Ev("issue", n, flight'[n].out, {})) /\ Keep
     \/ \E n \in PNames : (IssueResp(n) \/ IssueDone(n) \/ FlightRet(n)) /\ Same
     \/ \E s \in pending : Deliver(s) /\ gh' = Append(gh, Ev("install", "", 0, s)) /\ Keep
-    \/ pending = {} /\ hs[c1].pc \in {"got", "failed"} /\ HsEnd(c1) /\ gh' = Append(gh, Ev("end", hs[c1].name, hs[c1].res, {})) /\ Keep
+    \/ pending = {} /\ hs[c1].pc \in {"got", "failed"} /\ HsEnd(c1) /\ gh' = Append(gh, Ev("end", hs[c1].name, hs[c1].res,
+                                         IF hs[c1].res > 0 /\ certs[hs[c1].res].name # hs[c1].name THEN Live ELSE {})) /\ Keep
     \* the round: every timer fires, every request arrives (held by the fake), then one answer at a time
     \/ turn = "firing" /\ round1 \cap Armed # {} /\ TimerFire(MinOf(round1 \cap Armed)) /\ Same
     \/ /\ turn = "firing" /\ round1 \cap Armed = {} /\ TflIds("lead") # {}
